@@ -20,4 +20,9 @@ sed "s#@ZN_REPO@#$ZN_REPO#" $V/harness/go.mod.tmpl > $H/go.mod.new
 cmp -s $H/go.mod.new $H/go.mod || mv $H/go.mod.new $H/go.mod
 rm -f $H/go.mod.new $H/go.mod.tmpl
 cp $ZN_REPO/go.sum $H/go.sum
-(cd $H && go build -tags verif -o $B/znharness .)
+# pkg/server links on Linux only with the verif-tagged pipe file; ops that need it carry the tag `znserver`
+TAGS=verif
+[ -f $ZN_REPO/pkg/server/name_pipe_linux.go ] && TAGS=verif,znserver
+(cd $H && go build -tags $TAGS -o $B/znharness .)
+# the same harness under the race detector (C16); cgo/gcc needed, skipped quietly when unavailable
+if [ "${ZN_RACE:-1}" = "1" ]; then (cd $H && go build -race -tags $TAGS -o $B/znharness-race . 2>/dev/null) || true; fi
